@@ -55,7 +55,7 @@ def impl_op(cux, op):
         if k == 'stseq':
             tab = [[y for y in x.split(' ') if y] for x in op[1].split('|')] if op[1] else []
             return 'ok ' + ' '.join(cux.strand_table_to_sequence(tab, strand_break=op[2]))
-        if k == 'rot1':
+        if k in ('rot1', 'rot1x'):
             seq = op[1].split(' ') if op[1] else []
             sst = list(op[2])
             seq0, sst0 = list(seq), list(sst)
@@ -81,6 +81,18 @@ def impl_op(cux, op):
             if op[2] == '1':
                 li, my = cux.make_loop_index(pt, components=True)
                 r = 'ok ' + show_ll(li) + ' / ' + ' '.join('%d:%d' % (a, b) for a, b in my)
+            else:
+                li, ext = cux.make_loop_index(pt)
+                r = 'ok ' + show_ll(li) + ' / ' + ' '.join(str(x) for x in sorted(ext))
+            if pt != pt0:
+                return 'input-modified'
+            return r
+        if k == 'loop.pt':
+            pt = parse_pt(op[1])
+            pt0 = copy.deepcopy(pt)
+            if op[2] == '1':
+                li, my = cux.make_loop_index(pt, components=True)
+                r = 'ok ' + show_ll(li) + ' / ' + ' '.join(':'.join('-' if a is None else str(a) for a in e) for e in my)
             else:
                 li, ext = cux.make_loop_index(pt)
                 r = 'ok ' + show_ll(li) + ' / ' + ' '.join(str(x) for x in sorted(ext))
@@ -183,18 +195,31 @@ def object_error_kinds(res, dsdobjects, strings):
     from .. import ref
     from dsdobjects.base_classes import ComplexS, DomainS
     from dsdobjects import clear_singletons, SecondaryStructureError
-    for s in strings:
-        if not s or ref.ref_pair_table(s) is not None:
-            continue
+    cases = [(['+' if c == '+' else 'a' for c in s], s) for s in strings if s and ref.ref_pair_table(s) is None]
+    _object_views_must_reject(res, cases)
+
+
+def object_error_kinds_elements(res, dsdobjects):
+    """the same for structure LISTS one of whose elements is not a single character of the alphabet"""
+    cases = []
+    for el in ['', '..', '((', '()', ' ', 'x', '(.']:
+        for form in (['(', el, ')'], ['.', el], [el, '.', '.'], ['(', '+', el, ')']):
+            cases.append((['+' if c == '+' else 'a' for c in form], list(form)))
+    _object_views_must_reject(res, cases)
+
+
+def _object_views_must_reject(res, cases):
+    from dsdobjects.base_classes import ComplexS, DomainS
+    from dsdobjects import clear_singletons, SecondaryStructureError
+    for seq, s in cases:
         clear_singletons(ComplexS)
-        seq = ['+' if c == '+' else 'a' for c in s]
         res.evaluations += 1
         try:
             c = ComplexS(seq, list(s), name='X')
         except SecondaryStructureError:
             res.count('object_ctor_rejects'); continue
         except Exception as e:
-            res.violation('ComplexS:ill-formed:' + type(e).__name__, {'op': ['ComplexS', ' '.join(seq), s]},
+            res.violation('ComplexS:ill-formed:' + type(e).__name__, {'op': ['ComplexS', ' '.join(seq), s if isinstance(s, str) else repr(s)]},
                           type(e).__name__, 'SecondaryStructureError (or a complex whose structural views raise it)')
             continue
         # every view is asked twice, the second time after all others have failed once: a failure must not leave a
@@ -214,13 +239,13 @@ def object_error_kinds(res, dsdobjects, strings):
                     c.get_paired_loc((0, 0))
                 elif view == 'rotate_pt':
                     list(c.rotate_pt())
-                res.violation('ComplexS.%s:ill-formed:returns' % view, {'op': ['ComplexS.' + view, ' '.join(seq), s]},
+                res.violation('ComplexS.%s:ill-formed:returns' % view, {'op': ['ComplexS.' + view, ' '.join(seq), s if isinstance(s, str) else repr(s)]},
                               'returned a value', 'SecondaryStructureError')
             except SecondaryStructureError:
                 res.count('object_view_rejects')
             except Exception as e:
                 res.violation('ComplexS.%s:ill-formed:%s' % (view, type(e).__name__),
-                              {'op': ['ComplexS.' + view, ' '.join(seq), s]}, type(e).__name__, 'SecondaryStructureError')
+                              {'op': ['ComplexS.' + view, ' '.join(seq), s if isinstance(s, str) else repr(s)]}, type(e).__name__, 'SecondaryStructureError')
         del c
     clear_singletons(ComplexS)
 
@@ -228,10 +253,17 @@ def object_error_kinds(res, dsdobjects, strings):
 def replay(body, repo):
     from dsdobjects import complex_utils as cux
     op = tuple(body['input']['op'])
-    if op[0].startswith('ComplexS'):
-        from dsdobjects.base_classes import ComplexS
+    if op[0] == 'make_pair_table:list-form':
+        import ast as _ast
         try:
-            c = ComplexS(op[1].split(' '), list(op[2]), name='X')
+            out = 'returns %r' % (cux.make_pair_table(_ast.literal_eval(op[1])),)
+        except Exception as e:
+            out = err(e)
+    elif op[0].startswith('ComplexS'):
+        from dsdobjects.base_classes import ComplexS
+        import ast as _ast
+        try:
+            c = ComplexS(op[1].split(' '), _ast.literal_eval(op[2]) if op[2].startswith('[') else list(op[2]), name='X')
             v = op[0].split('.', 1)[1] if '.' in op[0] else None
             out = 'constructed'
             if v == 'pair_table':
@@ -289,3 +321,74 @@ def _objs(c, names):
     """the domain objects of complex c for a list of names ('+' kept)"""
     d = {str(x): x for x in c.sequence if x != '+'}
     return [x if x == '+' else d[x] for x in names]
+
+
+# ---- the functions translated from the source (Gen/PyFuncs.lean) are driven with the same inputs ---------------------------
+PY_TWIN = {'rot1x': 'pyrot1', 'mpt': 'pympt', 'ptdb': 'pyptdb', 'rot1': 'pyrot1', 'loop': 'pyloop', 'loop.pt': 'pyloop.pt'}
+
+
+def source_derived_stream(res, proof, name, ops, impl):
+    """the statement-level translation of complex_utils.py (regenerated from the working tree) against the implementation:
+    a disagreement means the translator's reading of Python is wrong for that statement - or the code changed under it"""
+    from .. import core
+    sel = [(op, out) for op, out in zip(ops, impl) if op[0] in PY_TWIN]
+    lines = ['\t'.join((PY_TWIN[op[0]],) + tuple(op[1:])) for op, _ in sel]
+    try:
+        model = core.run_driver(lines)
+        core.compare_streams(res, name, lines, [o for _, o in sel], model)
+    except core.DriverBroken as e:
+        proof.problem('driver', str(e))
+    res.dist['source_derived_ops:' + name] = len(lines)
+
+
+def object_tables_follow_structure(res, dsdobjects, rng, n=150):
+    """C06 at object level: whatever was asked before and however the object was turned, the tables a complex hands out are
+    the conversions of its CURRENT sequence and structure (pair table = make_pair_table(structure), strand table = split of
+    the sequence), judged with the reference matcher"""
+    from .. import gen, ref
+    from dsdobjects.base_classes import ComplexS, DomainS
+    from dsdobjects import clear_singletons
+    for it in range(n):
+        clear_singletons(ComplexS); clear_singletons(DomainS)
+        ns = rng.choice((2, 3, 3, 4, 5))
+        s = gen.random_structure(rng, rng.randint(ns, 12), nstrands=ns, pair_bias=0.7, depth_bias=0.5)
+        if ref.ref_pair_table(s) is None or any(len(x) == 0 for x in s.split('+')):
+            continue
+        names, k = [], 0
+        for ch in s:
+            if ch == '+':
+                names.append('+')
+            else:
+                names.append('d%d' % k); k += 1
+        try:
+            c = ComplexS([DomainS(x, 5) if x != '+' else '+' for x in names], list(s), name='X')
+        except Exception:
+            continue
+        desc = {'op': ['ComplexS.tables-after-turns', ' '.join(names), s]}
+        for step in range(3):
+            if rng.random() < 0.8:
+                list(c.pair_table); list(c.strand_table)
+            if rng.random() < 0.5:
+                c.get_paired_loc((0, 0))
+            t = rng.choice((1, 1, 2, -1, ns - 1, ns + 1))
+            c.turns = c.turns + t
+            cur = ''.join(c.structure)
+            want_pt = ref.ref_pair_table(cur)
+            got_pt = [list(x) for x in c.pair_table]
+            got_st = [[str(y) for y in x] for x in c.strand_table]
+            res.evaluations += 1
+            if want_pt is None or got_pt != [list(x) for x in want_pt]:
+                res.violation('ComplexS.pair_table:not-the-table-of-its-structure', dict(desc, turns_added=t, step=step),
+                              'structure %s, pair_table %r' % (cur, got_pt), 'make_pair_table(structure) = %r' % (want_pt,))
+                break
+            seqs = [str(y) for y in c.sequence]
+            flat = []
+            for i, x in enumerate(got_st):
+                if i: flat.append('+')
+                flat += x
+            if flat != seqs:
+                res.violation('ComplexS.strand_table:not-the-table-of-its-sequence', dict(desc, turns_added=t, step=step),
+                              'sequence %s, strand_table %r' % (' '.join(seqs), got_st), 'the sequence split at its strand breaks')
+                break
+        del c
+    clear_singletons(ComplexS); clear_singletons(DomainS)
